@@ -29,9 +29,19 @@ def run(ctx):
         if unhx(d) != v:
             bad.append((r, "a conforming reader recovers %r" % unhx(d)[:80]))
         body = unhx(r["impl"])
+        vtoks = set(re.split(rb"[ \t]+", v))
         for m in EW.finditer(body):
-            words.add(m.group(0))
             s, e = m.start(), m.end()
+            ts, te = s, e
+            while ts > 0 and body[ts - 1:ts] not in (b" ", b"\t", b"\n"):
+                ts -= 1
+            while te < len(body) and body[te:te + 1] not in (b" ", b"\t", b"\r"):
+                te += 1
+            if (ts, te) != (s, e) and body[ts:te] in vtoks:
+                continue      # a token copied verbatim from the value, not an encoded-word of the encoder: a reader
+                              # takes a token for an encoded-word only as a whole (RFC 2047 section 5), and the
+                              # round trip above has judged what it recovers
+            words.add(m.group(0))
             if not (body[s - 1:s] in (b" ", b"\t") and body[e:e + 1] in (b" ", b"\t", b"\r")):
                 bad.append((r, "encoded-word %r is not delimited by white space" % m.group(0)[:40]))
     wl = sorted(words)
